@@ -384,8 +384,12 @@ class DocstringParser(AbstractDocstringParser):
     def _get_griffe_node(self, qname: str) -> Object | None:
         node_qname_parts = qname.split(".")
         griffe_node = self.griffe_build
+        is_root_skipped = False
         for part in node_qname_parts:
-            if griffe_node.name == part:
+            # The qualified name starts with the name of the package itself. Only that part is skipped, a module or a
+            # function may be named like its parent ("pkg/pkg.py", "gadget.py" with "def gadget")
+            if not is_root_skipped and griffe_node.name == part:
+                is_root_skipped = True
                 continue
 
             if part in griffe_node.modules:
